@@ -8,13 +8,17 @@ type Components struct {
 	Schemas ComponentsSchemas `json:"schemas,omitempty"`
 }
 
-func newComponents(c *catalog.Catalog) *Components {
+func newComponents(c *catalog.Catalog) (*Components, Error) {
 	if hasComponents(c) {
-		return &Components{
-			Schemas: newSchemas(c.UserTypes),
+		ss, err := newSchemas(c.UserTypes)
+		if err != nil {
+			return nil, err
 		}
+		return &Components{
+			Schemas: ss,
+		}, nil
 	}
-	return nil
+	return nil, nil
 }
 
 // Currently only UserTypes participate in components
